@@ -267,7 +267,9 @@ static void dump_image(std::vector<std::string>& out) {
   e = c.resolve_cross_section_fixups();
   if (e != Error::kOk) { out.push_back("I err resolve " + err_str(e)); return; }
   e = c.relocate_to_base(0x10000000u);
-  if (e != Error::kOk) { out.push_back("I err relocate " + err_str(e)); return; }
+  // which record fails first depends on the order of the relocation records, and that order legitimately differs between a
+  // Builder (grouped by section) and an Assembler: only the fact that relocation fails is part of the image
+  if (e != Error::kOk) { out.push_back("I err relocate"); return; }
   for (Section* s : c.sections())
     out.push_back("I sec " + std::to_string(s->section_id()) + " @" + std::to_string(s->offset()) + " " +
                   (s->buffer_size() ? vh::bytes_to_hex(s->data(), s->buffer_size()) : std::string("-")));
